@@ -282,9 +282,16 @@ class NetworkClient(KGLambda):
         From the KlongPy perspective, any outstanding remote calls will fail with the close_exception.
 
         """
-        for future in self.pending_responses.values():
-            future.set_exception(close_exception)
-        self.pending_responses.clear()
+        # take the entries out one at a time: a caller thread may register a new call while the futures are
+        # being failed, and iterating over a dictionary that changes would abort the clean-up half-way and
+        # leave the remaining callers waiting forever
+        while self.pending_responses:
+            try:
+                _, future = self.pending_responses.popitem()
+            except KeyError:
+                break
+            if not future.done():
+                future.set_exception(close_exception)
 
     def run_client(self):
         """
